@@ -372,9 +372,27 @@ def corr_cases(rng, n, kinds=None, reuse_frac=0.15, maxlen=12):
     return cases
 
 
+def ill_conditioned(case):
+    """ALPHA with an alternative within 2^-20 (relative) of the bound, followed by an observation below the bound: the
+    factor (u - x)(u - eta)/(u - m)/u is then formed from u - eta, a difference of two nearly equal doubles, and the
+    double result differs from the exact rational one by far more than the comparison tolerance (seen once in a
+    thorough run: eta = u(1 - 2e-9), relative difference 4e-9 in the next history entry).  Such cases are still run and
+    judged by every oracle, but not compared with the exact model."""
+    cfg, o = case["cfg"], case["impl"]
+    if cfg["kind"] != "alpha_shrink" or o["exc"] or not o["aux"]:
+        return False         # (a fixed or capped alternative is a representable number: u - eta is then exact)
+    u = float(cfg["u"])
+    cap = u * (1 - 2.0 ** -52)
+    return any(0 < u - e < u * 2.0 ** -20 and e != cap and float(x) < u for e, x in zip(o["aux"], case["xs"]))
+
+
 def run_corr(pid, rng, n, kinds=None, name="nnm", maxlen=12):
     cases = corr_cases(rng, n, kinds=kinds, maxlen=maxlen)
-    res = C.run_corr(pid, name, IMPORTS, "nnm_case", cases, case_lit, "agree_nnm", shard=150, show="show_nnm")
+    for c in cases:
+        if ill_conditioned(c):
+            c["tag"] = (c.get("tag") or "") + " (ill-conditioned: oracle only)"
+    res = C.run_corr(pid, name, IMPORTS, "nnm_case", [c for c in cases if not ill_conditioned(c)], case_lit, "agree_nnm",
+                     shard=150, show="show_nnm")
     return cases, res
 
 
